@@ -1,8 +1,8 @@
 ------------------------------ MODULE Trace_Edge ------------------------------
 (* EdgeObs: observer for C02.  {"id":n,"cls":"..","cfg":{..},"ev":[
-     {"t":"write_start","i":k} {"t":"write_end","i":k,"ok":b} {"t":"relay","result":"whole_ok|map_all_ok|map_some_failed|raised"}
-     {"t":"reply","code":250} (SMTP end-of-data reply or HTTP status) ]} *)
-EXTENDS Integers, Sequences, FiniteSets, Json, IOUtils, TLC
+     {"t":"write_start","i":k,"s":msg,"n":nrcpts} {"t":"write_end","i":k,"ok":b,"s":msg} {"t":"relay","result":"..","s":msg,"outs":["ok"|"T"|"P",..]}
+     {"t":"reply","code":250,"s":client} (SMTP end-of-data reply or HTTP status) ]}; cfg.nsess clients hand off concurrently *)
+EXTENDS Integers, Sequences, FiniteSets, FiniteSetsExt, Json, IOUtils, TLC
 Traces == ndJsonDeserialize(IOEnv.TRACE_FILE)
 VARIABLES tid, l, O, bad
 vars == <<tid, l, O, bad>>
@@ -10,26 +10,36 @@ T == Traces[tid]
 Tr == T.ev
 E == Tr[l]
 Flag(c, ok) == IF ok THEN {} ELSE {c}
-Init == tid \in 1..Len(Traces) /\ l = 1 /\ bad = {} /\ O = [started |-> {}, ok |-> {}, failed |-> {}, relay |-> "none", replied |-> FALSE]
-EvWS == /\ E.t = "write_start" /\ O' = [O EXCEPT !.started = @ \cup {E.i}]
-        /\ bad' = bad \cup Flag("C02_NoEarlyAck", ~O.replied)
+Sess == 1..T.cfg.nsess
+\* started: the storage writes begun, each attributed to the client message (s) whose envelope it carries and the number
+\* of recipients (n) in that envelope; relay[s]: per-recipient outcomes the relay gave for message s (proxy queue)
+Init == /\ tid \in 1..Len(Traces) /\ l = 1 /\ bad = {}
+        /\ O = [started |-> {}, ok |-> {}, failed |-> {}, relay |-> [s \in Sess |-> <<>>], replied |-> {}]
+EvWS == /\ E.t = "write_start" /\ O' = [O EXCEPT !.started = @ \cup {[i |-> E.i, s |-> E.s, n |-> E.n]}]
+        /\ bad' = bad \cup Flag("C02_NoEarlyAck", E.s \notin O.replied)
 EvWE == /\ E.t = "write_end" /\ O' = (IF E.ok THEN [O EXCEPT !.ok = @ \cup {E.i}] ELSE [O EXCEPT !.failed = @ \cup {E.i}])
-        /\ bad' = bad \cup Flag("C02_NoEarlyAck", ~O.replied)
-EvRelay == /\ E.t = "relay" /\ O' = [O EXCEPT !.relay = E.result] /\ bad' = bad
+        /\ bad' = bad \cup Flag("C02_NoEarlyAck", E.s \notin O.replied)
+EvRelay == /\ E.t = "relay" /\ O' = [O EXCEPT !.relay[E.s] = E.outs] /\ bad' = bad
 EvReply ==
   /\ E.t = "reply"
-  /\ O' = [O EXCEPT !.replied = TRUE]
+  /\ O' = [O EXCEPT !.replied = @ \cup {E.s}]
   /\ LET success == E.code >= 200 /\ E.code < 300
-         running == O.started \ (O.ok \cup O.failed)
+         mine == {w \in O.started : w.s = E.s}
+         ids == {w.i : w \in mine}
+         running == ids \ (O.ok \cup O.failed)
+         outs == O.relay[E.s]
+         relayok == Len(outs) > 0 /\ \A k \in 1..Len(outs) : outs[k] = "ok"
      IN bad' = bad
+          \* a success reply means custody of every recipient of THIS client's message was taken
           \cup Flag("C02_AckImpliesAllStored",
-                    success => IF T.cfg.proxy THEN O.relay \in {"whole_ok", "map_all_ok"}
-                               ELSE O.started # {} /\ O.ok = O.started /\ Cardinality(O.started) = T.cfg.nenv)
+                    success => IF T.cfg.proxy THEN relayok
+                               ELSE /\ mine # {} /\ ids \subseteq O.ok /\ Cardinality(mine) = T.cfg.nenv
+                                    /\ FoldSet(LAMBDA w, acc : acc + w.n, 0, mine) = T.cfg.nrcpt)
           \cup Flag("C02_NoEarlyAck", success => running = {})
-          \cup Flag("C02_FailureIsReported", (O.failed # {} \/ O.relay \in {"map_some_failed", "raised"}) => E.code >= 400)
-          \cup Flag("C02_OneReply", ~O.replied)
+          \cup Flag("C02_FailureIsReported", ((ids \cap O.failed) # {} \/ (Len(outs) > 0 /\ ~relayok)) => E.code >= 400)
+          \cup Flag("C02_OneReply", E.s \notin O.replied)
 Next == /\ l <= Len(Tr) /\ (EvWS \/ EvWE \/ EvRelay \/ EvReply) /\ l' = l + 1 /\ UNCHANGED tid
 Spec == Init /\ [][Next]_vars
 AtEnd == l = Len(Tr) + 1
-Watch == AtEnd => PrintT(<<"END", T.id, bad \cup Flag("C02_Replied", O.replied)>>)
+Watch == AtEnd => PrintT(<<"END", T.id, bad \cup Flag("C02_Replied", O.replied = Sess)>>)
 =============================================================================
